@@ -971,3 +971,63 @@ T("C10", "twin-constant-shortcut-correct", (MEAS, """                marked_qubi
                     )"""))
 T("C10", "twin-denominator-negated-flag", (MEAS, "            num_measurements - 1 if use_bessel_correction else num_measurements", "            num_measurements if not use_bessel_correction else num_measurements - 1"))
 T("C10", "twin-outer-product", (MEAS, "            - expectation_values[:, np.newaxis] * expectation_values[np.newaxis, :]", "            - np.outer(expectation_values, expectation_values)"))
+
+# ----------------------------------------------------------------------------- C13
+ITT = "circuits/_itertools.py"
+
+B("C13", "min-for-max", (ITT, "        (circuits_chunk, max(samples_chunk))", "        (circuits_chunk, min(samples_chunk))"), rule="C13-D2")
+B("C13", "different-chunk-sizes", (ITT, "            _iterate_in_batches(n_samples_per_circuit, max_batch_size),", "            _iterate_in_batches(n_samples_per_circuit, max_batch_size + 1),"), rule="C13-D2")
+B("C13", "length-guard-deleted", (ITT, """    if len(circuits) != len(n_samples_per_circuit):
+        raise ValueError(
+            "Mismatched lengths of `circuits` and `n_samples_per_circuit: "
+            f"({len(circuits)} and {len(n_samples_per_circuit)} respectively)."
+            "Both sequences need to have the same length"
+        )
+""", ""), rule="C13-D1")
+B("C13", "batch-size-zero-accepted", (ITT, "    if max_batch_size <= 0:", "    if max_batch_size < 0:"), rule="C13-D1")
+B("C13", "combine-guard-deleted", (ITT, """    if len(all_measurements) != (sum_multiplicities := sum(multiplicities)):
+        raise ValueError(
+            "Mismatch between multiplicities and number of measurements to combine. "
+            f"Got {len(all_measurements)} Measurements objects to combine "
+            f"but multiplicities sum to {sum_multiplicities}"
+        )
+""", ""), rule="C13-D1")
+B("C13", "chunking-restarts-iterator", (ITT, "    it = iter(items)\n    while chunk := tuple(islice(it, batch_size)):\n        yield chunk", "    it = iter(items)\n    while chunk := tuple(islice(iter(items), batch_size)):\n        yield chunk\n        break"), rule="C13-D2")
+B("C13", "expansion-remainder-dropped", (ITT, "        else (multiplicities - 1) * (max_sample_size,) + (n_samples % max_sample_size,)", "        else (multiplicities - 1) * (max_sample_size,)"), rule="C13-D3")
+B("C13", "expansion-floor-multiplicity", (ITT, "    multiplicities = ceil(n_samples / max_sample_size)", "    multiplicities = n_samples // max_sample_size"), rule="C13-D3")
+B("C13", "expansion-full-chunks-only", (ITT, "        if n_samples % max_sample_size == 0\n        else (multiplicities - 1) * (max_sample_size,) + (n_samples % max_sample_size,)", "        if n_samples % max_sample_size == 0\n        else multiplicities * (max_sample_size,)"), rule="C13-D3")
+B("C13", "expand-returns-swapped-slots", (ITT, "    return new_circuits, new_n_samples, multiplicities", "    return new_circuits, multiplicities, new_n_samples"), rule="C13-D3")
+B("C13", "expand-repeats-by-sample-count", (ITT, "        for circuit, multi in zip(circuits, multiplicities)", "        for circuit, multi in zip(circuits, n_samples_per_circuit)"), rule="C13-D3")
+B("C13", "combine-fresh-iterator-per-group", (ITT, "        reduce(_combine_measurements, islice(measurements_it, multiplicity))", "        reduce(_combine_measurements, islice(iter(all_measurements), multiplicity))"), rule="C13-D4")
+B("C13", "combine-reversed-multiplicities", (ITT, "        sum(islice(bitstrings_it, multiplicity), start=[])\n        for multiplicity in multiplicities", "        sum(islice(bitstrings_it, multiplicity), start=[])\n        for multiplicity in reversed(multiplicities)"), rule="C13-D4")
+B("C13", "combine-accumulates-in-first", (ITT, "    result = Counter(first)\n    for bitstring, count in second.items():\n        result[bitstring] += count\n    return dict(result)", "    for bitstring, count in second.items():\n        first[bitstring] = first.get(bitstring, 0) + count\n    return first"), rule="C13-D")
+B("C13", "combine-overwrites-counts", (ITT, "        result[bitstring] += count", "        result[bitstring] = count"), rule="C13-D4")
+B("C13", "scale-assert-deleted", (UTL, '    assert sum(result) == total, "The scaled list does not sum to the desired total."\n', ""), rule="C13-D5")
+B("C13", "scale-smallest-remainder-first", (UTL, "    indexes_sorted_by_remainder = np.argsort(remainders)[::-1]", "    indexes_sorted_by_remainder = np.argsort(remainders)"), rule="C13-D5")
+B("C13", "scale-all-to-one-index", (UTL, "        result[indexes_sorted_by_remainder[index]] += 1", "        result[indexes_sorted_by_remainder[0]] += 1"), rule="C13-D5")
+B("C13", "scale-ceil", (UTL, "    result = [np.floor(value * scale_factor) for value in values]", "    result = [np.ceil(value * scale_factor) for value in values]"), rule="C13-D5")
+B("C13", "representing-drops-multiplicity", (MEAS, """                for sample in samples:
+                    bitstring_samples += [
+                        tuple([int(measurement_value) for measurement_value in sample])
+                    ] * samples[sample]""", """                bitstring_samples += [
+                    tuple([int(measurement_value) for measurement_value in sample])
+                    for sample in samples
+                ]"""), rule="C13-D6")
+B("C13", "representing-truncates", (MEAS, "            bitstring_samples += [bitstring] * int(\n                round(distribution[state] * number_of_samples)\n            )", "            bitstring_samples += [bitstring] * int(\n                distribution[state] * number_of_samples\n            )"), rule="C13-D6")
+B("C13", "representing-one-correction", (MEAS, "                abs(number_of_samples - len(bitstring_samples)),", "                1,"), rule="C13-D6")
+B("C13", "representing-no-elimination-check", (MEAS, """                samples = _check_sample_elimination(
+                    samples, bitstring_samples, leftover_distribution
+                )
+""", ""), rule="C13-D6")
+B("C13", "representing-edits-callers-dict", (MEAS, "        distribution = copy.deepcopy(measurement_outcome_distribution.distribution_dict)", "        distribution = measurement_outcome_distribution.distribution_dict\n        distribution.pop(None, None)"), rule="C13-D")
+T("C13", "twin-assert-as-raise", (UTL, '    assert sum(result) == total, "The scaled list does not sum to the desired total."\n', '    if sum(result) != total:\n        raise AssertionError("The scaled list does not sum to the desired total.")\n'))
+T("C13", "twin-guard-lt-one", (ITT, "    if max_batch_size <= 0:", "    if max_batch_size < 1:"))
+T("C13", "twin-expansion-divmod-free", (ITT, """    multiplicities = ceil(n_samples / max_sample_size)
+    new_n_samples = (
+        multiplicities * (max_sample_size,)
+        if n_samples % max_sample_size == 0
+        else (multiplicities - 1) * (max_sample_size,) + (n_samples % max_sample_size,)
+    )""", """    full = n_samples // max_sample_size
+    rest = n_samples % max_sample_size
+    new_n_samples = full * (max_sample_size,) + ((rest,) if rest != 0 else ())
+    multiplicities = full + (1 if rest != 0 else 0)"""))
